@@ -16,6 +16,7 @@
 #
 # Description:
 # Functionality for lookup table support.
+import math
 import uuid
 
 import numpy as np
@@ -175,6 +176,16 @@ def convert_to_lut(op, lut_values, lut_name):
     return op
 
 
+def finite_lut_value(lut_fn, x):
+    # math functions raise OverflowError instead of returning inf (math.exp above ~709). Such a table entry saturates: use a value
+    # that is far outside every output range but keeps the arithmetic of the table generators finite
+    try:
+        val = lut_fn(x)
+    except OverflowError:
+        val = math.inf
+    return min(max(val, -1e100), 1e100)
+
+
 def create_lut_8bit_op(op, lut_fn, fn_name):
     ifm_scale = op.ifm.quantization.scale_f32
     ofm_scale = op.ofm.quantization.scale_f32
@@ -187,7 +198,7 @@ def create_lut_8bit_op(op, lut_fn, fn_name):
     quantized_max = max(ix)
     for x in ix:
         x_real = ifm_scale * (x - zp_in)
-        y_real = lut_fn(x_real)
+        y_real = finite_lut_value(lut_fn, x_real)
         lut_result = round_away_zero(y_real / ofm_scale) + zp_out
         lut_result = min(quantized_max, max(quantized_min, lut_result))
         values.append(lut_result)
@@ -217,9 +228,9 @@ def create_lut_int16_op(op, lut_fn, fn_name):
 
     values = []
     for i in range(nbr_steps):
-        val = lut_fn(input_min + i * step)
-        val_midpoint = lut_fn(input_min + i * step + half_step)
-        val_next = lut_fn(input_min + (i + 1) * step)
+        val = finite_lut_value(lut_fn, input_min + i * step)
+        val_midpoint = finite_lut_value(lut_fn, input_min + i * step + half_step)
+        val_next = finite_lut_value(lut_fn, input_min + (i + 1) * step)
 
         sample_val = round_away_zero(val * output_scaling_inv)
         midpoint_interp_val = round_away_zero(
@@ -232,7 +243,7 @@ def create_lut_int16_op(op, lut_fn, fn_name):
         lut_result = min(max(sample_val - bias, table_min), table_max)
         values.append(lut_result)
 
-    val = round_away_zero(lut_fn(input_max) * output_scaling_inv)
+    val = round_away_zero(finite_lut_value(lut_fn, input_max) * output_scaling_inv)
     lut_result = min(max(val, table_min), table_max)
     values.append(lut_result)
 
